@@ -19,6 +19,10 @@ type SimQueue struct {
 	requeues   map[string]int
 	shutdown   bool
 	Log        []string // every Add/AddAfter/AddRateLimited, for observation
+	// Optional clock: when set, DelayedDue[i] is the simulated second at which Delayed[i] is due
+	// (rate-limited entries are due at once), and FireDue fires exactly the due entries.
+	Now        func() int64
+	DelayedDue []int64
 }
 
 var _ workqueue.RateLimitingInterface = (*SimQueue)(nil)
@@ -70,12 +74,18 @@ func (q *SimQueue) AddAfter(item interface{}, d time.Duration) {
 		return
 	}
 	q.Delayed = append(q.Delayed, k)
+	due := int64(0)
+	if q.Now != nil {
+		due = q.Now() + int64((d+time.Second-1)/time.Second)
+	}
+	q.DelayedDue = append(q.DelayedDue, due)
 }
 func (q *SimQueue) AddRateLimited(item interface{}) {
 	k := item.(string)
 	q.Log = append(q.Log, "ratelimited "+k)
 	q.requeues[k]++
 	q.Delayed = append(q.Delayed, k)
+	q.DelayedDue = append(q.DelayedDue, 0)
 }
 func (q *SimQueue) Forget(item interface{})          { delete(q.requeues, item.(string)) }
 func (q *SimQueue) NumRequeues(item interface{}) int { return q.requeues[item.(string)] }
@@ -87,8 +97,20 @@ func (q *SimQueue) Fire(i int) bool {
 	}
 	k := q.Delayed[i]
 	q.Delayed = append(q.Delayed[:i:i], q.Delayed[i+1:]...)
+	q.DelayedDue = append(q.DelayedDue[:i:i], q.DelayedDue[i+1:]...)
 	q.Add(k)
 	return true
+}
+
+// FireDue fires every delayed entry whose due time has been reached.
+func (q *SimQueue) FireDue(now int64) {
+	for i := 0; i < len(q.Delayed); {
+		if q.DelayedDue[i] <= now {
+			q.Fire(i)
+		} else {
+			i++
+		}
+	}
 }
 
 // FireKey moves one delayed entry with the given key, if any.
